@@ -15,6 +15,16 @@ ASSUMPTIONS = [
 ]
 
 PROPS = {
+    "C13": {
+        "rule": "(a) one history case: 33 000 (quick) / 480 000 (thorough) issuances of one document with 13 disclosable claims (4 top-level, 4 nested, 4 inside a claim that is itself "
+                "disclosable) and decoy maxima cycling 1..50, every second issuer object used for two encode() calls, 16 threads pooled into one set: salts >= 16 bytes, salts / "
+                "digests / decoys pairwise distinct, decoys never equal to real digests and of the same form, decoy count in [1,max], every kind of digest list (top-level, nested, "
+                "inside a disclosed value) observed >= 200 times and not constantly in marking order; (b) 1 500 / 20 000 random issuances with decoys replayed by the model issuer "
+                "from the read-back salts, insertion positions, decoys and shuffle. non-trivial = all; distinct = distinct (kind,input)",
+        "explanation": "the history run is statistical support for the premises of the structure theorems (fresh draws, large decoy space, shuffled lists), not a proof of them",
+        "trusted_base": [],
+        "assumptions": ["that thread_rng draws are distinct, unpredictable and uniform is runtime behaviour outside the model"],
+    },
     "C04": {
         "rule": "for each of the 13 algorithms one token signed by the harness through sdjwt::encode: (a) single-character substitutions and single-bit flips at 200 sampled "
                 "(quick) / all (thorough) positions of the three segments, (b) every (key, configured algorithm) pair of the 13x13 matrix, (c) the public key's PEM bytes used as "
